@@ -6,6 +6,7 @@
 import YashModel.Common.Proto
 import YashModel.Variable.Model
 import YashModel.Variable.Spec
+import YashModel.Variable.Init
 namespace YashModel.Variable
 open YashModel.Proto
 
@@ -18,8 +19,26 @@ def showValue : Option Value → String
   | some (.scalar s) => "s:" ++ encStr s
   | some (.array vs) => "a:" ++ ",".intercalate (vs.map encStr)
 
+def showQuirk : Option Quirk → String
+  | none => "-"
+  | some .lineNumber => "L"
+
 def showVar (v : Variable) : String :=
-  s!"{showValue v.value}/{if v.exported then 1 else 0}/{showOptNat v.readOnly}/{showOptNat v.lastAssigned}"
+  s!"{showValue v.value}/{if v.exported then 1 else 0}/{showOptNat v.readOnly}/{showOptNat v.lastAssigned}/{showQuirk v.quirk}"
+
+/-- text of an `Expansion` (the result of `Variable::expand`) -/
+def showExpansion : Expansion → String
+  | .unset => "~"
+  | .scalar x => "s:" ++ encStr x
+  | .array vs => "a:" ++ ",".intercalate (vs.map encStr)
+
+def showOptExpansion : Option Expansion → String
+  | some e => showExpansion e
+  | none => "-"
+
+/-- the location at which every observation expands the visible variable: character 4 of the code
+    `a⏎b⏎c` that starts on line 3 (hence line 5), reached through one alias substitution -/
+def obsLoc : Loc := .alias 1 "a" 0 (.plain 3 "a\nb\nc" 4)
 
 def showOptVar : Option Variable → String
   | some v => showVar v
@@ -37,33 +56,63 @@ def showScalar : Option String → String
   | none => "~"
   | some x => encStr x
 
-def observeWith (r : Res) (names : List Name) (gs : Name → Option String)
+def observeWith (rs : String) (names : List Name) (gs : Name → Option String)
     (get : Name → Option Variable) (scopedF : Name → Scope → Option Variable)
     (iter : Scope → List (Name × Variable)) (env : List (Name × String)) (pp : List String) : String :=
   let vs := names.map fun n =>
-    s!"{encStr n}={showOptVar (get n)}|{showOptVar (scopedF n .global)}|{showOptVar (scopedF n .loc)}|{showOptVar (scopedF n .volatile)}|{showScalar (gs n)}"
+    s!"{encStr n}={showOptVar (get n)}|{showOptVar (scopedF n .global)}|{showOptVar (scopedF n .loc)}|{showOptVar (scopedF n .volatile)}|{showScalar (gs n)}|{showOptExpansion ((get n).map (·.expand obsLoc))}"
   let it (sc : Scope) := ",".intercalate ((iter sc).map fun (n, v) => s!"{encStr n}={showVar v}")
   let ev := ",".intercalate (env.map fun (n, x) => s!"{encStr n}={encStr x}")
-  " ".intercalate ([s!"r={showRes r}"] ++ vs ++
+  " ".intercalate ([s!"r={rs}"] ++ vs ++
     [s!"ig={it .global}", s!"il={it .loc}", s!"iv={it .volatile}", s!"env={ev}",
      s!"pp={",".intercalate (pp.map encStr)}"])
 
-def observeM (s : VariableSet) (r : Res) (names : List Name) : String :=
-  observeWith r names s.getScalar s.get s.getScoped (fun sc => s.iter sc names) (s.env names) s.positionalParams
+/-- the observation with an arbitrary result text -/
+def observeMT (s : VariableSet) (rs : String) (names : List Name) : String :=
+  observeWith rs names s.getScalar s.get s.getScoped (fun sc => s.iter sc names) (s.env names) s.positionalParams
 
-def observeS (X : SSet) (r : Res) (names : List Name) : String :=
-  observeWith r names X.getScalar (lookup X) X.getScoped (fun sc => X.iter sc names) (X.env names) X.positionalParams
+def observeST (X : SSet) (rs : String) (names : List Name) : String :=
+  observeWith rs names X.getScalar (lookup X) X.getScoped (fun sc => X.iter sc names) (X.env names) X.positionalParams
+
+def observeM (s : VariableSet) (r : Res) (names : List Name) : String := observeMT s (showRes r) names
+
+def observeS (X : SSet) (r : Res) (names : List Name) : String := observeST X (showRes r) names
+
+/-- an item of the case language: an operation, `ee N V` (`extend_env` of one pair), `init`
+    (`VariableSet::init`), `xp N LOC` (`Variable::expand` of the visible variable at a location) -/
+inductive Item where
+  | op (o : Op)
+  | ee (n : Name) (v : String)
+  | init
+  | xp (n : Name) (l : Loc)
+
+/-- when the case ends the guards of all contexts still pushed are dropped, innermost first: one
+    observation after every pop, so that every instance hidden at the end of the history is seen -/
+def unwindGo (names : List Name) : Nat → VariableSet → SSet → List String × List String
+  | 0, _, _ => ([], [])
+  | k + 1, s, X =>
+    let r := unwindGo names k (s.step .pop).1 (X.step .pop).1
+    (observeMT (s.step .pop).1 "unwind" names :: r.1, observeST (X.step .pop).1 "unwind" names :: r.2)
 
 
-/-- runs the items of a history on both sides, collecting the observations (reversed accumulators) -/
+/-- runs the items of a history on both sides, collecting the observations (reversed accumulators),
+    then unwinds the contexts that are still pushed -/
 def historyGo (names : List Name) (s : VariableSet) (X : SSet) :
-    List (Op ⊕ (Name × String)) → List String → List String → List String × List String
-  | [], om, os => (om.reverse, os.reverse)
-  | .inl op :: rest, om, os =>
+    List Item → List String → List String → List String × List String
+  | [], om, os =>
+    (om.reverse ++ (unwindGo names (s.contexts.length - 1) s X).1,
+     os.reverse ++ (unwindGo names (s.contexts.length - 1) s X).2)
+  | .op op :: rest, om, os =>
     historyGo names (s.step op).1 (X.step op).1 rest
       (observeM (s.step op).1 (s.step op).2 names :: om) (observeS (X.step op).1 (X.step op).2 names :: os)
-  | .inr (n, v) :: rest, om, os =>
+  | .ee n v :: rest, om, os =>
     historyGo names (s.extendEnv1 n v) (X.extendEnv1 n v) rest
       (observeM (s.extendEnv1 n v) .done names :: om) (observeS (X.extendEnv1 n v) .done names :: os)
+  | .init :: rest, om, os =>
+    historyGo names s.init X.init rest (observeM s.init .done names :: om) (observeS X.init .done names :: os)
+  | .xp n l :: rest, om, os =>
+    historyGo names s X rest
+      (observeMT s ("xp(" ++ showOptExpansion ((s.get n).map (·.expand l)) ++ ")") names :: om)
+      (observeST X ("xp(" ++ showOptExpansion ((lookup X n).map (·.expand l)) ++ ")") names :: os)
 
 end YashModel.Variable
